@@ -206,7 +206,7 @@ func prepareGenerated(corpus []string, k, l int) (*GenInfo, func(), error) {
 		fmt.Fprintf(&mb, "\t_ %q\n", ip)
 	}
 	mb.WriteString(")\n\n")
-	hs := []string{"H01", "H04a", "H04b", "H04c", "H04v", "H05", "H13a", "H13b", "H14g", "H14t", "HBig", "HWitness"}
+	hs := []string{"H01", "H04a", "H04b", "H04c", "H04v", "H05", "H13a", "H13b", "H14g", "H14t", "HBig", "HConst", "HWitness"}
 	for _, h := range hs {
 		fmt.Fprintf(&mb, "func g%s() { zzlib.%s() }\n", h, h)
 	}
